@@ -36,6 +36,7 @@ type Profile struct {
 	MultiArgPct int  // % of cases with >1 interface argument
 	UnnamedPct  int  // % of signatures with unnamed parameters
 	GopathPct   int  // % of worlds in GOPATH+vendor layout
+	ModPath     string // module-relative import path prefix of the world (default example.com/w, own go.mod)
 	Evolve      bool // also render a second version of the source (first requested literal interface gains a method)
 	MultiRefPct int  // % bias towards dependency interfaces whose one method type mentions several same-named packages
 }
@@ -989,6 +990,9 @@ func (g *G) genTParams(skipEnsure bool) ([]TParamDecl, bool) {
 		usedN[name] = true
 		tp := TParamDecl{Name: name}
 		k := g.Int(0, 13)
+		if g.P.ExecSafe && (k == 7 || k == 8 || k >= 10) {
+			k = g.Int(0, 6) // the reflective driver needs witness type arguments it can spell: any / comparable / unions only
+		}
 		hardKind := func() bool {
 			// F-C: the self-check instantiation is invalid for these constraints
 			if !skipEnsure {
@@ -1192,7 +1196,7 @@ func (g *G) genIface(cfgSkipEnsure bool) *Iface {
 			if g.Chance(30) {
 				name = g.freshMethod()
 			}
-			if g.inPlace && g.Chance(4) {
+			if g.inPlace && !g.P.ExecSafe && g.Chance(4) {
 				name = strings.ToLower(name[:1]) + name[1:]
 			}
 			if !it.AllMeths[name] {
@@ -1385,6 +1389,9 @@ func (g *G) renderSrcFile(f *srcFile) string {
 // Case draws a complete case.
 func (g *G) Case() *core.Case {
 	g.modPath = "example.com/w"
+	if g.P.ModPath != "" {
+		g.modPath = g.P.ModPath
+	}
 	cfg := core.Config{}
 	cfg.Stub = g.Chance(40)
 	cfg.SkipEnsure = g.Chance(35)
@@ -1441,7 +1448,9 @@ func (g *G) Case() *core.Case {
 	g.avoidRetroRenames()
 
 	c := &core.Case{ModPath: g.modPath, Files: map[string]string{}, SrcDir: dir, SrcPath: g.src.Path, SrcName: name}
-	c.Files["go.mod"] = "module " + g.modPath + "\n\ngo 1.24\n"
+	if g.P.ModPath == "" {
+		c.Files["go.mod"] = "module " + g.modPath + "\n\ngo 1.24\n"
+	}
 	for _, p := range g.deps {
 		c.Files[p.Dir+"/"+lastElem(p.Dir)+".go"] = renderDep(p)
 	}
